@@ -461,6 +461,8 @@ def check(prog, res, tier):
                 break
         fails = []
         order = [norm(c) for c, _t in tests]
+        if not tests:
+            return [soft('no digit test of the decoded MTI (isnumeric / isdigit / isdecimal under a codec) is recognised')]
         if order[:1] != ['latin1']:
             fails.append(definite(f'the MTI is not tested as ASCII-family digits first (tests: {order})'))
         if len(order) > 1 and order[1] not in ('cp037', 'cp500'):
